@@ -85,14 +85,14 @@ class World(object):
     def truncate_trace(self):
         open(self.trace, "w").close()
 
-    def arm(self, k, who, serial):
+    def arm(self, k, who, serial, nfail=1, second=-1):
         try:
             os.unlink(self.ctl + ".result")
         except OSError:
             pass
         tmp = self.ctl + ".tmp"
         with open(tmp, "w") as fh:
-            fh.write("%d %s %u\n" % (k, who, serial))
+            fh.write("%d %s %u %d %d\n" % (k, who, serial, nfail, second))
         os.rename(tmp, self.ctl)
 
     def result(self):
@@ -125,7 +125,7 @@ def summarize(rec):
     return (m.type, k.get(7), k.get(2), k.get(3), k.get(4), k.get(5) is not None, tuple(repr(x) for x in m.body[:4]))
 
 
-def do_op(w, op, k):
+def do_op(w, op, k, nfail=1, second=-1):
     """arm k, perform op, return (replies to caller, per-client message summaries, fired/consumed, new client or None)"""
     kind = op[0]
     newc = None
@@ -134,13 +134,13 @@ def do_op(w, op, k):
         c.auth()
         newc = c
         serial = c.next_serial()
-        w.arm(k, "-", serial)
+        w.arm(k, "-", serial, nfail, second)
         s, data = c.build(1, path=b"/org/freedesktop/DBus", iface=b"org.freedesktop.DBus", member=b"Hello",
                           dest=b"org.freedesktop.DBus", serial=serial)
     else:
         c = w.clients[op[1]]
         serial = c.next_serial()
-        w.arm(k, c.unique.decode(), serial)
+        w.arm(k, c.unique.decode(), serial, nfail, second)
         if kind == "request":
             s, data = c.build(1, path=b"/org/freedesktop/DBus", iface=b"org.freedesktop.DBus", member=b"RequestName",
                               dest=b"org.freedesktop.DBus", sig=b"su", body=[op[2], op[3]], serial=serial)
@@ -271,7 +271,7 @@ def op_class(setup, op, pre):
     return cls + (":eavesdropped" if eav else "")
 
 
-def run_case(b, rundir, rng, part, cid, max_k=None):
+def run_case(b, rundir, rng, part, cid, max_k=None, pair_limit=0):
     setup, op, shape = gen_case(rng)
     wit = {"case": cid, "setup": [repr(s) for s in setup], "op": repr(op)}
     # ---- reference (fault-free) run
@@ -296,11 +296,21 @@ def run_case(b, rundir, rng, part, cid, max_k=None):
         return   # known C07 finding (two replies): not an OOM matter, skip this operation
     part.count("allocations-enumerated", n_alloc)
     part.count("op:" + ocls)
-    ks = range(n_alloc) if max_k is None else range(min(n_alloc, max_k))
+    ks = [(k, 1, -1) for k in (range(n_alloc) if max_k is None else range(min(n_alloc, max_k)))]
+    # pairs: every burst of two consecutive failures, and (short operations / sampled) every pair (k1, k2)
+    if max_k is None:
+        ks += [(k, 2, -1) for k in range(n_alloc)]
+        ks += [(k, 3, -1) for k in range(0, n_alloc, 3)]
+        if n_alloc <= pair_limit:
+            ks += [(k1, 1, d) for k1 in range(n_alloc) for d in range(1, n_alloc - k1)]
+        else:
+            for _ in range(60):
+                k1 = rng.randrange(n_alloc)
+                ks.append((k1, 1, rng.randrange(0, max(1, n_alloc - k1))))
     w = World(b, rundir, setup, "k")
     dirty = False
     try:
-        for k in ks:
+        for (k, nfail, second) in ks:
             if dirty:
                 probs = w.close()
                 for cls, site, text in probs:
@@ -317,7 +327,7 @@ def run_case(b, rundir, rng, part, cid, max_k=None):
                 part.inconclusive.append("prior state not reproducible for case %r" % (cid,))
                 return
             try:
-                replies, seen, res, newc = do_op(w, op, k)
+                replies, seen, res, newc = do_op(w, op, k, nfail, second)
                 post_k = w.state()
             except (client.Timeout, client.Closed) as e:
                 dirty = True
@@ -334,7 +344,8 @@ def run_case(b, rundir, rng, part, cid, max_k=None):
                 continue
             part.evaluations += 1
             rc = reply_class(replies)
-            wk = dict(wit, k=k, replies=repr(rc), result=res)
+            wk = dict(wit, k=k, nfail=nfail, second=second, replies=repr(rc), result=res)
+            part.count("faults:single" if (nfail == 1 and second < 0) else ("faults:burst" if second < 0 else "faults:pair"))
             if newc is not None:
                 # a Hello that failed leaves an unregistered connection behind: close it and let the bus notice
                 newc.close()
@@ -405,7 +416,7 @@ def _same_but_incomplete(post, pre):
 
 
 def _worker(args):
-    seed, shard, count, max_k = args
+    seed, shard, count, max_k, pair_limit = args
     part = report.Part()
     b = build.build("asan", quiet=True)
     rundir = tempfile.mkdtemp(prefix="verif-c14-")
@@ -414,7 +425,7 @@ def _worker(args):
             cid = shard * 100000 + i
             rng = gen.rng_for(seed, PROP, shard, i)
             try:
-                run_case(b, os.path.join(rundir, "c%d" % i), rng, part, cid, max_k)
+                run_case(b, os.path.join(rundir, "c%d" % i), rng, part, cid, max_k, pair_limit if i % 4 == 0 else 0)
             except (client.Timeout, client.Closed, RuntimeError) as e:
                 part.inconclusive.append("case %d aborted: %s %s" % (cid, type(e).__name__, e))
             shutil.rmtree(os.path.join(rundir, "c%d" % i), ignore_errors=True)
@@ -438,15 +449,16 @@ def run(tier, seed, replay=None, scale=1.0):
         part = report.Part()
         rundir = tempfile.mkdtemp(prefix="verif-c14-")
         try:
-            run_case(b, rundir, gen.rng_for(j["seed"], PROP, shard, i), part, cid)
+            run_case(b, rundir, gen.rng_for(j["seed"], PROP, shard, i), part, cid, None, 80)
         finally:
             shutil.rmtree(rundir, ignore_errors=True)
         part.sig("replay", 0)
         r.merge(part)
         return r.finish()
-    total = int((240 if tier == "quick" else 6000) * scale)
+    total = int((160 if tier == "quick" else 4000) * scale)
     per = max(1, total // 16)
-    for part in report.run_sharded(_worker, [(seed, i, per, None) for i in range(16)]):
+    pair_limit = 45 if tier == "quick" else 80
+    for part in report.run_sharded(_worker, [(seed, i, per, None, pair_limit) for i in range(16)]):
         r.merge(part)
     r.extra["exhaustive"] = False
     r.extra["k_enumeration"] = "exhaustive 0..N-1 for every sampled (state, operation)"
